@@ -313,6 +313,19 @@ class Evaluator(object):
         self._walk(0, {}, [], [], [], {})
         return self.paths
 
+    def run_region(self, start, stops, init_env=None):
+        """Evaluate ONE pass through a loop-free region: from block `start` until a block of `stops` is entered (the loop header
+        again, or a block outside the loop).  Locals defined before the region are given by init_env (local -> expr); any other
+        local that is read before it is written evaluates to ('unknown', ..).  Each path's `ret` is ('stop', block) and `env` is
+        the environment on arrival, so a rule can compare a cursor variable's final value with its initial one."""
+        self.ipdom = _post_dominators(self.body)
+        self.stop_blocks = frozenset(stops)
+        try:
+            self._walk(start, dict(init_env or {}), [], [], [], {})
+        finally:
+            self.stop_blocks = frozenset()
+        return self.paths
+
     def _noise_region_ok(self, start, stop):
         """blocks strictly between a noise switch and its post-dominator contain only noise"""
         key = (start, stop)
@@ -350,6 +363,9 @@ class Evaluator(object):
         while True:
             if len(self.paths) > self.max_paths:
                 raise TooComplex("more than %d paths" % self.max_paths)
+            if blocks and bi in getattr(self, "stop_blocks", ()):
+                self.paths.append(Path(conds, ("stop", bi), effects, blocks + [bi], env))
+                return
             v = visits.get(bi, 0)
             if v >= 1:
                 raise TooComplex("cycle through bb%d (function is not loop-free)" % bi)
